@@ -50,7 +50,8 @@ Start(k) == IF k <= Len(Rec) THEN Dec0(Plan(Rec[k]).off) ELSE Dec0(0)
 Key(ev, t) ==
   CASE ev.kind = "comp" -> "comp:" \o t.st \o ":" \o t.why
     [] ev.kind = "dec"  -> LET c == ClassOf(Route(ev.entry, ev.stream), t) IN "dec:" \o c.cls \o ":" \o c.why
-    [] ev.kind = "size" -> IF ev.p > 0 THEN "size:periodic" ELSE "size:other"
+    [] ev.kind = "size" -> IF ev.p > 0 THEN "size:periodic"
+                           ELSE IF Periods(ev.input) # {} THEN "size:small-periodic" ELSE "size:other"
 Bump(f, k) == IF k \in DOMAIN f THEN [f EXCEPT ![k] = @ + 1] ELSE f @@ (k :> 1)
 
 Init == i = 1 /\ d = Start(1) /\ bad = <<>> /\ hit = FALSE /\ nref = 0 /\ tally = <<>>
